@@ -317,8 +317,8 @@ Op gen_prng(Ctx &c, GPrng &g, int obj, bool erase_bias, bool sys_only) {
             uint64_t reps;
             if (y < 55) reps = left + r.below(3);
             else if (y < 90) reps = 1 + r.below(40);
-            else if (y < 96 || (c.armed != C16 && c.armed != C15 && c.armed != C17) || ((c.armed == C15 || c.armed == C17) && !c.thorough && !r.chance(1, 20))) { static const uint64_t W8[] = {253, 254, 255, 256, 257}; reps = W8[r.below(5)]; }
-            else { static const uint64_t W16[] = {65533, 65534, 65535, 65536, 65537, 70000}; reps = W16[r.below(6)]; if (!c.thorough && r.chance(2, 3)) reps = 255; }
+            else if (y < 96 || (c.armed != C16 && c.armed != C15 && c.armed != C17) || (c.armed == C15 && !c.thorough && !r.chance(1, 20)) || (c.armed == C17 && !c.thorough && !r.chance(1, 3))) { static const uint64_t W8[] = {253, 254, 255, 256, 257}; reps = W8[r.below(5)]; }
+            else { static const uint64_t W16[] = {65533, 65534, 65535, 65536, 65537, 70000, 65535, 65535}; reps = W16[r.below(8)]; if (!c.thorough && c.armed == C16 && r.chance(2, 3)) reps = 255; }
             if (reps > 70000) reps = 70000;
             if (reps > 0) { o.b = reps - 1; g.counter += reps - 1; }
             if (reps > 200) g.after_run = true;
